@@ -168,10 +168,10 @@ func s04Usable(found []string) []string {
 // The four matchers as production builds them: the REAL NewWithOption on a config.Dns holding the
 // rule list (upstream initialisation, optimizer chain, SplitRequestRules, RequestMatcher builder,
 // the three compileMatcher calls).
-func (e *s04Env) production(rules []*s04Rule) (map[string]*s04Matcher, bool) {
+func (e *s04Env) production(rules []*s04Rule, fb string) (map[string]*s04Matcher, bool) {
 	cfg := &config.Dns{Upstream: []config.KeyableString{"alidns:udp://223.5.5.5:53", "googledns:udp://8.8.8.8:53", "cf:udp://1.1.1.1:53"}}
 	cfg.Routing.Request.Rules = rules
-	cfg.Routing.Request.Fallback = "asis"
+	cfg.Routing.Request.Fallback = fb
 	cfg.Routing.Response.Fallback = "accept"
 	r, err := NewWithOption(e.log, &config.Global{}, cfg, &NewOption{LocationFinder: e.lf})
 	if err != nil {
@@ -582,8 +582,22 @@ func s04SpecCat(cat string, rules []*s04Rule, truth map[s04Atom]bool, guardSubno
 	return fb
 }
 
-func (e *s04Env) runProgram(o *s04Out, r *VRand, tag string, rules []*s04Rule, nInputs int, fixed []*s04Input) {
+func (e *s04Env) fbIndex(fb string) int {
+	switch fb {
+	case "asis":
+		return int(consts.DnsRequestOutboundIndex_AsIs)
+	case "reject":
+		return int(consts.DnsRequestOutboundIndex_Reject)
+	}
+	return int(e.ups[fb])
+}
+
+func (e *s04Env) runProgram(o *s04Out, r *VRand, tag string, rules []*s04Rule, fb string, nInputs int, fixed []*s04Input) {
 	st := e.stats
+	st.Inc("fallback." + fb)
+	if len(rules) == 0 {
+		st.Inc("programs_with_empty_rule_list")
+	}
 	var labelToks []string
 	seenOut := map[string]bool{}
 	for _, rule := range rules {
@@ -650,9 +664,9 @@ func (e *s04Env) runProgram(o *s04Out, r *VRand, tag string, rules []*s04Rule, n
 	if err == nil {
 		opt = s04SerProg(normalised)
 	}
-	prog, perr := componentdns.NewNormalizedRequestRoutingProgram(rules, config.FunctionOrString("asis"), e.optimizers()...)
-	progRaw, rerr := componentdns.NewNormalizedRequestRoutingProgram(rules, config.FunctionOrString("asis"), datOnly()...)
-	prod, pok := e.production(rules)
+	prog, perr := componentdns.NewNormalizedRequestRoutingProgram(rules, config.FunctionOrString(fb), e.optimizers()...)
+	progRaw, rerr := componentdns.NewNormalizedRequestRoutingProgram(rules, config.FunctionOrString(fb), datOnly()...)
+	prod, pok := e.production(rules, fb)
 	if pok {
 		st.Inc("programs_built_by_real_NewWithOption")
 	} else {
@@ -692,10 +706,17 @@ func (e *s04Env) runProgram(o *s04Out, r *VRand, tag string, rules []*s04Rule, n
 			}
 		}
 		backend, fbTok, fbDec, gn := "sel", "9999 0 0", "9999.0.0", "GN 0"
+		// what "no router" means for this category: selectors have no match; ordinary questions are left to the
+		// base resolver, which is what the pass-through fallbacks asis / reject decide as well
+		noRouter := fbDec
 		if cat == "dns" {
 			backend = "scansplit"
-			fbTok = fmt.Sprintf("%d 0 0", consts.DnsRequestOutboundIndex_AsIs)
-			fbDec = fmt.Sprintf("%d.0.0", consts.DnsRequestOutboundIndex_AsIs)
+			fbTok = fmt.Sprintf("%d 0 0", e.fbIndex(fb))
+			fbDec = fmt.Sprintf("%d.0.0", e.fbIndex(fb))
+			noRouter = fbDec
+			if fb != "asis" && fb != "reject" {
+				noRouter = fmt.Sprintf("%d.0.0", consts.DnsRequestOutboundIndex_AsIs)
+			}
 		}
 		if cat == "subnode" || cat == "nodeall" {
 			gn = "GN 1 subnode"
@@ -704,10 +725,10 @@ func (e *s04Env) runProgram(o *s04Out, r *VRand, tag string, rules []*s04Rule, n
 		if cat == "nodeall" {
 			backend, mcat = "selnode", "node"
 		}
-		op := fmt.Sprintf("P %s %s 0 G %d %s L %d %s FB %s FBW asis 0 0 A %d %s %s %s", backend, mcat, len(geoToks), strings.Join(geoToks, " "),
-			len(labelToks), strings.Join(labelToks, " "), fbTok, len(atoms), strings.Join(atomToks, " "), gn, s04SerProg(rules))
+		op := fmt.Sprintf("P %s %s 0 G %d %s L %d %s FB %s FBW %s 0 0 MX %d A %d %s %s %s", backend, mcat, len(geoToks), strings.Join(geoToks, " "),
+			len(labelToks), strings.Join(labelToks, " "), fbTok, fb, consts.MaxMatchSetLen, len(atoms), strings.Join(atomToks, " "), gn, s04SerProg(rules))
 		op = strings.Join(strings.Fields(op), " ")
-		o.emit(op, "opt="+opt+" split="+split+" fb="+fbDec, s04Descr{Kind: "P", Backend: "daedns/" + cat, Tag: tag, Text: s04Text(rules), Fb: "(none)", Changed: changed})
+		o.emit(op, "opt="+opt+" split="+split+" fb="+fbDec, s04Descr{Kind: "P", Backend: "daedns/" + cat, Tag: tag, Text: s04Text(rules), Fb: fb, Changed: changed})
 		st.Inc(cat + ".programs")
 		if changed {
 			st.Inc(cat + ".programs_changed_by_normalisation")
@@ -751,7 +772,7 @@ func (e *s04Env) runProgram(o *s04Out, r *VRand, tag string, rules []*s04Rule, n
 				if m := prod[cat]; m != nil {
 					dec = m.decide(e, in)
 				} else {
-					dec = fbDec // no router at all
+					dec = noRouter // production built no router at all
 				}
 			}
 			raw := "err"
@@ -838,16 +859,26 @@ func TestVerifC04Sel(t *testing.T) {
 		{tag: "", link: "ss://abc@1.2.3.4:8388", name: "jp-2", qname: "x.org", qtype: 28},
 		{tag: "other", link: "", name: "us-3", qname: "zzz.net", qtype: 1},
 	}
-	for _, w := range []struct{ tag, body string }{
-		{"c04-merge-negated", "!node(hk-1) -> alidns\n!node(jp-2) -> alidns\nnode(hk-1) -> googledns"},
-		{"c04-merge-negated", "!subnode(subtag: my_sub) -> alidns\n!subnode(subtag: other) -> alidns\nsubnode(my_sub) -> cf"},
-		{"c04-selector-empty-expansion-catchall", "node(geosite: two@nosuch) -> alidns\nnode(hk-1) -> cf"},
-		{"c04-selector-empty-expansion-catchall", "sub(geosite: empty) -> googledns"},
-		{"c04-selector-empty-expansion-catchall", "qtype(a) && qname(geosite: empty) -> alidns\nsubnode(my_sub) -> cf"},
-		{"keep-merge", "node(hk-1) -> alidns\nnode(name_keyword: jp) -> alidns\nqname(suffix: a.com) -> alidns\nsub(my_sub) -> alidns\nsub(tag: other, my_sub) -> alidns"},
-		{"keep-split-order", "subnode(subtag: my_sub) && subnode(name_keyword: hk) -> alidns\nnode(hk-1) -> cf\nsubnode(name: hk-1) -> googledns\nqtype(aaaa) -> cf"},
+	for _, w := range []struct{ tag, body, fb string }{
+		// fix: an empty rule list keeps its fallback (no router only for the pass-through fallbacks)
+		{"c04-daedns-empty-list-ignores-fallback", "", "alidns"},
+		{"c04-daedns-empty-list-ignores-fallback", "", "googledns"},
+		{"c04-daedns-empty-list-ignores-fallback", "qname(full: never.invalid) -> googledns", "alidns"},
+		{"keep-no-router-for-passthrough-fallback", "", "asis"},
+		{"keep-no-router-for-passthrough-fallback", "", "reject"},
+		{"c04-merge-negated", "!node(hk-1) -> alidns\n!node(jp-2) -> alidns\nnode(hk-1) -> googledns", ""},
+		{"c04-merge-negated", "!subnode(subtag: my_sub) -> alidns\n!subnode(subtag: other) -> alidns\nsubnode(my_sub) -> cf", ""},
+		{"c04-selector-empty-expansion-catchall", "node(geosite: two@nosuch) -> alidns\nnode(hk-1) -> cf", ""},
+		{"c04-selector-empty-expansion-catchall", "sub(geosite: empty) -> googledns", ""},
+		{"c04-selector-empty-expansion-catchall", "qtype(a) && qname(geosite: empty) -> alidns\nsubnode(my_sub) -> cf", ""},
+		{"keep-merge", "node(hk-1) -> alidns\nnode(name_keyword: jp) -> alidns\nqname(suffix: a.com) -> alidns\nsub(my_sub) -> alidns\nsub(tag: other, my_sub) -> alidns", ""},
+		{"keep-split-order", "subnode(subtag: my_sub) && subnode(name_keyword: hk) -> alidns\nnode(hk-1) -> cf\nsubnode(name: hk-1) -> googledns\nqtype(aaaa) -> cf", ""},
 	} {
-		env.runProgram(out, r, w.tag, s04Parse(t, w.body), 3, fixed)
+		fb := w.fb
+		if fb == "" {
+			fb = "asis"
+		}
+		env.runProgram(out, r, w.tag, s04Parse(t, w.body), fb, 3, fixed)
 	}
 	n, k := 250, 6
 	if VThorough() {
@@ -855,7 +886,10 @@ func TestVerifC04Sel(t *testing.T) {
 	}
 	for i := 0; i < n; i++ {
 		rules := s04GenProg(r, stats)
-		env.runProgram(out, r, "gen", rules, k, nil)
+		if r.Chance(0.03) {
+			rules = nil // the empty rule list: only the fallback is left
+		}
+		env.runProgram(out, r, "gen", rules, s04Pick(r, []string{"asis", "asis", "alidns", "reject", "googledns", "cf"}), k, nil)
 		if i < 2 {
 			stats.Sample("daedns: " + strings.Join(s04Text(rules), " ; "))
 		}
